@@ -20,6 +20,10 @@ pub trait BufX: Buf {
     fn set_limit_opt(&mut self, _l: usize) -> bool {
         false
     }
+    /// remaining() of the children as seen through get_ref()/first_ref()/last_ref() and the *_mut twins
+    fn peek_children(&mut self) -> Vec<(usize, usize)> {
+        Vec::new()
+    }
     fn tname(&self) -> &'static str;
 }
 
@@ -205,6 +209,9 @@ impl BufX for Take<BX> {
     fn dismantle(self: Box<Self>) -> Vec<BX> {
         vec![(*self).into_inner()]
     }
+    fn peek_children(&mut self) -> Vec<(usize, usize)> {
+        vec![(self.get_ref().remaining(), self.get_mut().remaining())]
+    }
     fn limit_opt(&self) -> Option<usize> {
         Some(self.limit())
     }
@@ -237,6 +244,9 @@ impl BufX for Chain<BX, BX> {
     fn dismantle(self: Box<Self>) -> Vec<BX> {
         let (a, b) = (*self).into_inner();
         vec![a, b]
+    }
+    fn peek_children(&mut self) -> Vec<(usize, usize)> {
+        vec![(self.first_ref().remaining(), self.first_mut().remaining()), (self.last_ref().remaining(), self.last_mut().remaining())]
     }
     fn tname(&self) -> &'static str {
         "Chain"
@@ -381,6 +391,15 @@ pub fn mk_mut(rep: usize, x: &[u8]) -> BytesMut {
     }
 }
 
+pub fn rd_has_endless(s: &Spec) -> bool {
+    match s {
+        Spec::Endless => true,
+        Spec::Take(_, _, x) => rd_has_endless(x),
+        Spec::Chain(_, a, b) => rd_has_endless(a) || rd_has_endless(b),
+        _ => false,
+    }
+}
+
 pub fn build(s: &Spec) -> BX {
     match s {
         Spec::Slice(v) => {
@@ -391,7 +410,8 @@ pub fn build(s: &Spec) -> BX {
         Spec::BytesMut(r, v) => Box::new(mk_mut(*r, v)),
         Spec::Cursor(p, v) => {
             let mut c = Cursor::new(v.clone());
-            c.set_position(*p as u64);
+            // usize::MAX stands for a position that does not even fit usize on 32-bit targets
+            c.set_position(if *p == usize::MAX { u64::MAX } else { *p as u64 });
             Box::new(c)
         }
         Spec::Deque(rot, v) => {
@@ -468,6 +488,13 @@ pub fn dismantle_check(s: &Spec, b: BX, n: usize, root_limit: Option<usize>, err
     match s {
         Spec::Take(l, _, x) => {
             let want = root_limit.unwrap_or(l - n.min(*l));
+            let mut b = b;
+            let xl = x.model().len();
+            for (r1, r2) in b.peek_children() {
+                if !matches!(**x, Spec::Endless) && !rd_has_endless(x) && (r1 != xl - n.min(xl) || r2 != r1) {
+                    errs.push(format!("Take::get_ref().remaining() = {r1} / get_mut() = {r2}, expected {}", xl - n.min(xl)));
+                }
+            }
             if b.limit_opt() != Some(want) {
                 errs.push(format!("Take limit() = {:?}, expected {} (limit {} minus {} transferred)", b.limit_opt(), want, l, n));
             }
@@ -481,6 +508,16 @@ pub fn dismantle_check(s: &Spec, b: BX, n: usize, root_limit: Option<usize>, err
         Spec::Chain(_, a, bb) => {
             let la = a.model().len();
             let na = n.min(la);
+            let mut b = b;
+            let lb = bb.model().len();
+            let pk = b.peek_children();
+            if pk.len() == 2 && !rd_has_endless(a) && !rd_has_endless(bb) {
+                let wa = la - na;
+                let wb = lb - (n - na).min(lb);
+                if pk[0] != (wa, wa) || pk[1] != (wb, wb) {
+                    errs.push(format!("Chain::first_ref/last_ref().remaining() = {:?}, expected ({wa}, {wb})", pk));
+                }
+            }
             let mut kids = b.dismantle();
             if kids.len() != 2 {
                 errs.push("Chain did not yield two inners".into());
